@@ -234,7 +234,7 @@ def run(rep, tier, seed, tr_errors):
     elex = [j - 2000000 for j in eall if j >= 2000000]
     ebroken = [(si, raw[-800:]) for si, (rc, parsed, raw) in enumerate(eouts) if rc != 0 or parsed is None]
     rep.extra["extended_token_cases"] = {"circuits_without_containers": len(ecases), "outside_the_syntactic_hypotheses": len(ena),
-                                         "outside_the_lexical_hypotheses (labels not starting with a letter or holding a brace, printed numbers beyond the double range)": len(elex)}
+                                         "outside_the_lexical_hypotheses (labels not starting with a letter or with unbalanced braces, printed numbers beyond the double range)": len(elex)}
     rep.oblige("correspondence:extended-syntax tokens of the printed text and the theorem's specification xpconn vs to_string(d)/parse_cdc",
                not emism and not ebroken and len(ecases) - len(ena) - len(elex) >= 10,
                "%d circuits without containers, %d + %d outside the hypotheses, %d mismatches, %d shards failed" % (len(ecases), len(ena), len(elex), len(emism), len(ebroken)))
